@@ -231,6 +231,8 @@ func (c *condSpec) jkvs() []jkv {
 	switch c.kind {
 	case 'm':
 		return []jkv{kv("method", jStr(c.a))}
+	case 'p':
+		return []jkv{kv("port", jNum(c.a))}
 	case 'u':
 		var out []jkv
 		for _, e := range [][2]string{{"scheme", c.a}, {"host", c.b}, {"path", c.c}, {"query", c.d}} {
@@ -433,7 +435,7 @@ type prioElem struct {
 // harness process too (the filter packages register their siblings) but are outside C12's trees.
 var otherRegistered = map[string]bool{"header.Modifier": true, "header.RegexFilter": true, "header.Append": true, "header.Blacklist": true,
 	"header.Copy": true, "header.Id": true, "header.Verifier": true, "cookie.Modifier": true, "url.Modifier": true, "url.RegexFilter": true,
-	"url.Verifier": true, "method.Verifier": true, "querystring.Modifier": true, "querystring.Verifier": true}
+	"url.Verifier": true, "method.Verifier": true, "querystring.Modifier": true, "querystring.Verifier": true, "port.Modifier": true}
 
 // decodeJV: the tree a JSON value says (nil = names a registered modifier outside the model).
 func decodeJV(j *jv) *node {
@@ -549,6 +551,28 @@ func decodeJV(j *jv) *node {
 			n.kids = append(n.kids, child(m.mod))
 			n.prios = append(n.prios, m.prio)
 		}
+		if bad(n.kids...) {
+			return nil
+		}
+		return n
+	case "port.Filter":
+		var port int64
+		var mod *jv
+		ok := decodeStruct(body, []string{"port", "modifier", "scope"}, func(f string, v *jv) (ok bool) {
+			switch f {
+			case "port":
+				port, ok = decInt(port, v)
+			case "modifier":
+				mod, ok = v, true
+			default:
+				ok = setScope(v)
+			}
+			return
+		})
+		if !ok {
+			return malformedNode()
+		}
+		n := &node{kind: 'C', cond: &condSpec{kind: 'p', a: strconv.FormatInt(port, 10)}, scope: scopeOf(scope), kids: []*node{child(mod)}}
 		if bad(n.kids...) {
 			return nil
 		}
